@@ -1065,13 +1065,310 @@ def _inline_new_constants(tree, modname):
             child._parent = node
 
 
+_REF_PARAMS = None
+
+
+def _ref_params():
+    global _REF_PARAMS
+    if _REF_PARAMS is None:
+        path = os.path.join(os.path.dirname(os.path.abspath(__file__)),
+                            "reference_params.json")
+        try:
+            with open(path) as f:
+                _REF_PARAMS = json.load(f)
+        except (IOError, OSError, ValueError):
+            _REF_PARAMS = {}
+    return _REF_PARAMS
+
+
+def _fold_constants(tree):
+    """Comparisons / ``not`` / ``and`` / ``or`` over constants are folded,
+    and ``if`` / conditional expressions / ``while`` with a constant test
+    reduced to the branch taken.  (Used after new parameters have been
+    replaced by their defaults.)"""
+    import operator as _op
+    CMP = {ast.Eq: _op.eq, ast.NotEq: _op.ne, ast.Lt: _op.lt,
+           ast.LtE: _op.le, ast.Gt: _op.gt, ast.GtE: _op.ge,
+           ast.Is: _op.is_, ast.IsNot: _op.is_not}
+
+    def const(e):
+        return isinstance(e, ast.Constant)
+
+    def pure(e):
+        return all(isinstance(x, (ast.Name, ast.Constant, ast.Attribute,
+                                  ast.Compare, ast.BoolOp, ast.UnaryOp,
+                                  ast.expr_context, ast.cmpop, ast.boolop,
+                                  ast.unaryop)) for x in ast.walk(e))
+
+    class F(ast.NodeTransformer):
+        def visit_Compare(self, n):
+            self.generic_visit(n)
+            if len(n.ops) == 1 and const(n.left) and \
+                    const(n.comparators[0]) and type(n.ops[0]) in CMP:
+                a, b = n.left.value, n.comparators[0].value
+                if isinstance(n.ops[0], (ast.Is, ast.IsNot)) and not (
+                        a is None or b is None or isinstance(a, bool) or
+                        isinstance(b, bool)):
+                    return n
+                try:
+                    v = CMP[type(n.ops[0])](a, b)
+                except TypeError:
+                    return n
+                return ast.copy_location(ast.Constant(value=bool(v)), n)
+            return n
+
+        def visit_UnaryOp(self, n):
+            self.generic_visit(n)
+            if isinstance(n.op, ast.Not) and const(n.operand):
+                return ast.copy_location(
+                    ast.Constant(value=not n.operand.value), n)
+            return n
+
+        def visit_BoolOp(self, n):
+            self.generic_visit(n)
+            is_and = isinstance(n.op, ast.And)
+            out = []
+            for i, v in enumerate(n.values):
+                if const(v):
+                    t = bool(v.value)
+                    if t == is_and and i < len(n.values) - 1:
+                        continue        # True and x -> x ; False or x -> x
+                    if t != is_and:
+                        # short circuit: what follows is never evaluated
+                        out.append(v)
+                        break
+                out.append(v)
+            if not out:
+                return n.values[-1]
+            if len(out) == 1:
+                return out[0]
+            n.values = out
+            return n
+
+        def visit_IfExp(self, n):
+            self.generic_visit(n)
+            if const(n.test):
+                return n.body if n.test.value else n.orelse
+            return n
+
+        def block(self, stmts):
+            out = []
+            for s_ in stmts:
+                r = self.visit(s_)
+                if r is None:
+                    continue
+                if isinstance(r, list):
+                    out.extend(r)
+                else:
+                    out.append(r)
+            return out
+
+        def _test(self, t):
+            # in a test, ``x and True`` / ``x or False`` is ``x``
+            t = self.visit(t)
+            while isinstance(t, ast.BoolOp) and const(t.values[-1]) and \
+                    bool(t.values[-1].value) == isinstance(t.op, ast.And):
+                t.values = t.values[:-1]
+                if len(t.values) == 1:
+                    t = t.values[0]
+            # as a truth value, ``x and False`` is False and ``x or True``
+            # is True when evaluating x has no effect
+            if isinstance(t, ast.BoolOp) and const(t.values[-1]) and \
+                    bool(t.values[-1].value) != isinstance(t.op, ast.And) \
+                    and all(pure(x) for x in t.values[:-1]):
+                t = ast.copy_location(ast.Constant(
+                    value=bool(t.values[-1].value)), t)
+            return t
+
+        def visit_If(self, n):
+            n.test = self._test(n.test)
+            n.body = self.block(n.body) or [ast.copy_location(ast.Pass(),
+                                                              n)]
+            n.orelse = self.block(n.orelse)
+            if const(n.test):
+                return n.body if n.test.value else (n.orelse or None)
+            return n
+
+        def visit_While(self, n):
+            n.test = self._test(n.test)
+            n.body = self.block(n.body) or [ast.copy_location(ast.Pass(),
+                                                              n)]
+            n.orelse = self.block(n.orelse)
+            if const(n.test) and not n.test.value:
+                return n.orelse or None
+            return n
+
+        def generic_block_holder(self, n):
+            for f in ("body", "orelse", "finalbody"):
+                b = getattr(n, f, None)
+                if isinstance(b, list) and b and isinstance(b[0], ast.stmt):
+                    nb = self.block(b)
+                    if not nb and f == "body":
+                        nb = [ast.copy_location(ast.Pass(), n)]
+                    setattr(n, f, nb)
+            for f, v in ast.iter_fields(n):
+                if f in ("body", "orelse", "finalbody"):
+                    continue
+                if isinstance(v, ast.AST):
+                    setattr(n, f, self.visit(v))
+                elif isinstance(v, list):
+                    setattr(n, f, [self.visit(x) if isinstance(x, ast.AST)
+                                   else x for x in v])
+            return n
+
+        def visit_FunctionDef(self, n):
+            return self.generic_block_holder(n)
+        visit_AsyncFunctionDef = visit_FunctionDef
+        visit_For = visit_FunctionDef
+        visit_With = visit_FunctionDef
+        visit_Try = visit_FunctionDef
+        visit_ExceptHandler = visit_FunctionDef
+        visit_ClassDef = visit_FunctionDef
+        visit_Module = visit_FunctionDef
+    return F().visit(tree)
+
+
+def _specialise_defaults(tree, modname, veto=()):
+    """A parameter the reference function did not have, with a constant
+    default (None, a truth value, a number, a string, an empty tuple), that
+    the function never re-binds, is read at that default - the function as
+    every existing caller sees it.  An attribute that nothing in the
+    reference tree stored and that is now bound (once, in the package
+    module) to such a specialised constant is read as the constant too
+    (``self.backoff = backoff`` in __init__, ``if self.backoff > 0`` in a
+    method).  Conditions that become constant are folded and the branches
+    not taken dropped.  Returns {qualname: [parameters specialised]}: the
+    uses of the new option are *not* analysed by the property's rules (the
+    generic analyses read the full text)."""
+    import copy as _copy
+    ref = _ref_params()
+    rp = ref.get("params", {}).get(modname)
+    if rp is None:
+        return {}
+    ref_attrs = set(ref.get("attrs", []))
+    done = {}
+
+    def const_default(d):
+        if isinstance(d, ast.Constant) and (
+                d.value is None or isinstance(d.value, (bool, int, float,
+                                                        str, bytes))):
+            return d
+        if isinstance(d, ast.Tuple) and not d.elts:
+            return d
+        return None
+
+    def walk(node, prefix):
+        for ch in ast.iter_child_nodes(node):
+            if isinstance(ch, (ast.FunctionDef, ast.AsyncFunctionDef)):
+                q = prefix + ch.name
+                if q in rp:
+                    spec_fn(ch, q)
+                walk(ch, q + ".")
+            elif isinstance(ch, ast.ClassDef):
+                walk(ch, prefix + ch.name + ".")
+            else:
+                walk(ch, prefix)
+
+    def spec_fn(fn, q):
+        a = fn.args
+        pos = a.posonlyargs + a.args
+        defaults = dict(zip([x.arg for x in pos[len(pos) -
+                                                len(a.defaults):]],
+                            a.defaults))
+        for x, d in zip(a.kwonlyargs, a.kw_defaults):
+            if d is not None:
+                defaults[x.arg] = d
+        new = [x for x in defaults if x not in rp[q]]
+        use = {}
+        for pname in new:
+            d = const_default(defaults[pname])
+            if d is None:
+                continue
+            rebound = any(isinstance(n, ast.Name) and n.id == pname and
+                          isinstance(n.ctx, (ast.Store, ast.Del))
+                          for n in ast.walk(fn)) or any(
+                isinstance(n, (ast.Global, ast.Nonlocal)) and
+                pname in n.names for n in ast.walk(fn))
+            if rebound or (q, pname) in veto:
+                # (vetoed: some call in the package passes the parameter -
+                # the package itself uses the new option)
+                continue
+            use[pname] = d
+        if not use:
+            return
+        done[q] = sorted(use)
+
+        class R(ast.NodeTransformer):
+            def visit_Name(self, n):
+                if isinstance(n.ctx, ast.Load) and n.id in use:
+                    return ast.copy_location(_copy.deepcopy(use[n.id]), n)
+                return n
+
+            def visit_Lambda(self, n):
+                if any(x.arg in use for x in ast.walk(n.args)
+                       if isinstance(x, ast.arg)):
+                    return n
+                return self.generic_visit(n)
+
+            def visit_FunctionDef(self, n):
+                if n is not fn and any(
+                        x.arg in use for x in ast.walk(n.args)
+                        if isinstance(x, ast.arg)):
+                    return n
+                return self.generic_visit(n)
+        fn.body = [R().visit(s_) for s_ in fn.body]
+    walk(tree, "")
+    # new attributes bound once to a constant
+    stores = {}
+    for n in ast.walk(tree):
+        if isinstance(n, ast.Attribute) and isinstance(n.ctx, (ast.Store,
+                                                                ast.Del)):
+            stores.setdefault(n.attr, []).append(n)
+    attr_const = {}
+    parents = {}
+    for x in ast.walk(tree):
+        for c in ast.iter_child_nodes(x):
+            parents[id(c)] = x
+    for attr, sts in stores.items():
+        if attr in ref_attrs or len(sts) != 1:
+            continue
+        st = parents.get(id(sts[0]))
+        if isinstance(st, ast.Assign) and len(st.targets) == 1 and \
+                st.targets[0] is sts[0] and isinstance(
+                    sts[0].value, ast.Name) and \
+                sts[0].value.id in ("self", "cls") and \
+                const_default(st.value) is not None:
+            attr_const[attr] = st.value
+    if attr_const:
+        class A(ast.NodeTransformer):
+            def visit_Attribute(self, n):
+                self.generic_visit(n)
+                if isinstance(n.ctx, ast.Load) and n.attr in attr_const and \
+                        isinstance(n.value, ast.Name) and \
+                        n.value.id in ("self", "cls"):
+                    return ast.copy_location(
+                        _copy.deepcopy(attr_const[n.attr]), n)
+                return n
+        A().visit(tree)
+        done["<attributes>"] = sorted(attr_const)
+    if done:
+        _fold_constants(tree)
+        ast.fix_missing_locations(tree)
+    return done
+
+
 class Module(object):
-    def __init__(self, name, path, src):
+    def __init__(self, name, path, src, specialise=True, veto=()):
         self.name = name
         self.path = path
         self.src = src
+        self.veto = frozenset(veto)
         self.tree = _normalise(ast.parse(src, filename=path))
         _inline_new_constants(self.tree, name)
+        self.new_params = {}    # qualname -> [parameter read at its default]
+        if specialise and not os.environ.get("RIGVERIF_NO_SPECIALISE"):
+            self.new_params = _specialise_defaults(self.tree, name,
+                                                   self.veto)
         self.lines = src.splitlines()
         self.defs = {}      # qualname -> FunctionDef/ClassDef
         self.imports = {}   # local name -> dotted target ("pkg.mod" or
@@ -1149,6 +1446,72 @@ class Program(object):
                 except SyntaxError as e:
                     raise AnalysisError("cannot parse %s: %s" % (path, e))
         self.consulted = set()
+        self._veto_used_options()
+
+    def _veto_used_options(self):
+        """A new parameter that some call in the package passes (by keyword,
+        or by position) is not read at its default: the package itself uses
+        the new option.  Modules concerned are loaded again with the veto."""
+        cands = {}
+        for name, m in self.modules.items():
+            for q, ps in m.new_params.items():
+                if q == "<attributes>":
+                    continue
+                d = None
+                # the def node, to know the parameter's position
+                for n in ast.walk(m.tree):
+                    if isinstance(n, (ast.FunctionDef,
+                                      ast.AsyncFunctionDef)) and \
+                            getattr(n, "_qualname", None) == q:
+                        d = n
+                if d is None:
+                    continue
+                names = [x.arg for x in d.args.posonlyargs + d.args.args]
+                if names and names[0] in ("self", "cls"):
+                    names = names[1:]
+                fname = d.name
+                if fname in ("__init__", "__new__") and "." in q:
+                    fname = q.split(".")[-2]
+                for p_ in ps:
+                    cands.setdefault(fname, []).append(
+                        (name, q, p_, names.index(p_) if p_ in names
+                         else None))
+        if not cands:
+            return
+        veto = {}
+        for m in self.modules.values():
+            for c in ast.walk(m.tree):
+                if not isinstance(c, ast.Call):
+                    continue
+                f = c.func
+                nm = f.id if isinstance(f, ast.Name) else (
+                    f.attr if isinstance(f, ast.Attribute) else None)
+                if nm not in cands:
+                    continue
+                n_pos = len([a for a in c.args
+                             if not isinstance(a, ast.Starred)])
+                kws = {k.arg for k in c.keywords}
+                for mod_, q, p_, idx in cands[nm]:
+                    if p_ in kws or (idx is not None and n_pos > idx) or \
+                            None in kws:
+                        veto.setdefault(mod_, set()).add((q, p_))
+        for mod_, vs in veto.items():
+            m = self.modules[mod_]
+            self.modules[mod_] = Module(mod_, m.path, m.src, veto=vs)
+
+    def full(self, name):
+        """The module as written - without the reading of new parameters at
+        their defaults (the generic analyses judge the whole text,
+        including the code of a new option)."""
+        m = self.modules.get(name)
+        if m is None:
+            return None
+        if not m.new_params:
+            return m
+        cache = self.__dict__.setdefault("_full_modules", {})
+        if name not in cache:
+            cache[name] = Module(name, m.path, m.src, specialise=False)
+        return cache[name]
 
     # -- anchors -----------------------------------------------------------
     def module(self, name):
@@ -1930,6 +2293,19 @@ def finish(report, program, explanation, not_decided, trusted=None,
         report.undecided([m.split()[1]], "floor not met: " + m)
 
     _withhold_rewritten(report, program)
+    for mname in sorted(program.consulted):
+        np_ = program.modules[mname].new_params
+        if np_:
+            report.undecided(
+                ["new-options"],
+                "%s: %s added since the reference tree - the property's "
+                "rules read these functions with the new parameter(s) at "
+                "their default(s), as every existing caller sees them; "
+                "whether the property holds when the new option is used is "
+                "not decided by them (the generic analyses read the whole "
+                "text)" % (mname, "; ".join(
+                    "%s(%s)" % (q, ", ".join(ps))
+                    for q, ps in sorted(np_.items()))))
 
     known = load_known()
     known_keys = {}
